@@ -7,6 +7,7 @@ import (
 	"go/token"
 	"go/types"
 	"sort"
+	"strings"
 
 	"golang.org/x/tools/go/packages"
 	"golang.org/x/tools/go/ssa"
@@ -91,55 +92,7 @@ func resolveByteOrderVar(p *core.Program, pkg *packages.Package, e ast.Expr) str
 
 func c03(p *core.Program, r *core.Report) {
 	typeWordEvalRule(p, r, "type-word-evaluated")
-	const tB = "byte-order-table"
-	r.Rule(tB, "byte order id 0 <-> binary.BigEndian and 1 <-> binary.LittleEndian in every writer and reader switch (package vars resolved through their initialisers)", 8)
-
-	for _, rel := range []string{"encoding/wkb", "encoding/ewkb"} {
-		wfd, wpkg := p.DeclOf(rel, "Write")
-		rfd, rpkg := p.DeclOf(rel, "Read")
-		if wfd == nil || rfd == nil {
-			r.Lost(tB, rel+".Read/Write", "Read or Write no longer resolves")
-			continue
-		}
-		// ---------- byte order tables
-		for _, side := range []struct {
-			name string
-			fd   *ast.FuncDecl
-			pkg  *packages.Package
-		}{{"Write", wfd, wpkg}, {"Read", rfd, rpkg}} {
-			rows := map[string]int64{}
-			for _, sw := range eng.Switches(side.pkg, side.fd.Body) {
-				if sw.IsType || sw.Tag == nil {
-					continue
-				}
-				for _, c := range sw.Clauses {
-					for _, k := range c.Keys {
-						if k.Default {
-							continue
-						}
-						if side.name == "Write" {
-							bo := resolveByteOrderVar(p, side.pkg, c.Node.List[0])
-							if bo != "" && len(c.Assigns) == 1 && c.Assigns[0].Const != nil {
-								v, _ := eng.ConstInt64(c.Assigns[0].Const)
-								rows[bo] = v
-							}
-						} else if k.Const != nil && len(c.Assigns) == 1 {
-							bo := resolveByteOrderVar(p, side.pkg, c.Assigns[0].RHS)
-							if bo != "" {
-								v, _ := eng.ConstInt64(k.Const)
-								rows[bo] = v
-							}
-						}
-					}
-				}
-			}
-			for _, bo := range sortedKeys(specByteOrder) {
-				got, ok := rows[bo]
-				r.Check(ok && got == specByteOrder[bo], tB, fmt.Sprintf("%s.%s/%s", rel, side.name, bo), p.Pos(side.fd.Pos()), true,
-					fmt.Sprintf("%s <-> %d", bo, got), fmt.Sprintf("binary.%s is paired with id %d (present=%v); spec says %d", bo, got, ok, specByteOrder[bo]))
-			}
-		}
-	}
+	byteOrderEvalRule(p, r, "byte-order-table")
 
 	// ---------- empty point = canonical quiet NaN
 	const tN = "empty-point-nan"
@@ -771,6 +724,192 @@ func hexDelegation(p *core.Program, r *core.Report, rule string) {
 				}
 			}
 			r.Check(ok, rule, short(fn), p.Pos(fn.Pos()), true, "pure delegation to hex.DecodeString + Unmarshal", why)
+		}
+	}
+}
+
+// byteOrderEvalRule (C03): byte-order marker 0 <-> big endian, 1 <-> little endian, decided by CONSTEVAL:
+// the writer is evaluated with its ByteOrder parameter bound to each of binary.BigEndian / binary.LittleEndian / a
+// foreign implementation and the byte handed to the first byte write is read off; the reader is evaluated with the
+// first decoded byte bound to 0, 1, 2, 255 and the ByteOrder handed to every later word read is read off. Package
+// variables (XDR, NDR) are resolved through their initialisers.
+func byteOrderEvalRule(p *core.Program, r *core.Report, rule string) {
+	r.Rule(rule, "CONSTEVAL: wkb.Write / ewkb.Write with byteOrder bound to binary.BigEndian send the marker byte 0 to their byte write, with binary.LittleEndian the marker 1, and with any other ByteOrder reach no write at all; wkb.Read / ewkb.Read with the first decoded byte bound to 0 hand binary.BigEndian to every word read, with 1 binary.LittleEndian, and with any other marker reach no word read (package variables resolved through their initialisers)", 8)
+	var bp *types.Package
+	if wp := p.Pkg("encoding/wkb"); wp != nil {
+		for _, imp := range wp.Types.Imports() {
+			if imp.Path() == "encoding/binary" {
+				bp = imp
+			}
+		}
+	}
+	if bp == nil {
+		r.Lost(rule, "encoding/binary", "package encoding/wkb no longer imports encoding/binary")
+		return
+	}
+	boType := map[string]types.Type{}
+	for _, n := range []string{"BigEndian", "LittleEndian"} {
+		if o := bp.Scope().Lookup(n); o != nil {
+			boType[n] = o.Type()
+		}
+	}
+	if len(boType) != 2 {
+		r.Lost(rule, "encoding/binary.BigEndian", "binary.BigEndian / LittleEndian not found")
+		return
+	}
+	nameOf := func(v eng.CVal) string {
+		if v.K != eng.CType {
+			return v.String()
+		}
+		for n, t := range boType {
+			if types.Identical(t, v.T) {
+				return n
+			}
+		}
+		return v.String()
+	}
+	isByteOrder := func(t types.Type) bool { return namedTypeQual(t) == "encoding/binary.ByteOrder" }
+	common := func(fn *ssa.Function, v ssa.Value, args []eng.CVal) (eng.CVal, bool) {
+		if g, ok := eng.GlobalInit(v); ok {
+			return g, true
+		}
+		if c, ok := v.(*ssa.Call); ok {
+			if o := eng.CalleeObj(c); o != nil && len(args) > 0 && args[0].K == eng.CType {
+				switch o.Name() {
+				case "Layout":
+					return eng.IntV(1), true // geom.XY
+				case "SRID":
+					return eng.IntV(0), true
+				}
+			}
+		}
+		return eng.CVal{}, false
+	}
+	for _, rel := range []string{"encoding/wkb", "encoding/ewkb"} {
+		// ---- writer
+		if wfn := mustFn(p, r, rule, rel, "Write"); wfn != nil {
+			boIdx, gIdx := -1, -1
+			for i, prm := range wfn.Params {
+				if isByteOrder(prm.Type()) {
+					boIdx = i
+				} else if n, ok := prm.Type().(*types.Named); ok && n.Obj().Name() == "T" {
+					gIdx = i
+				}
+			}
+			if boIdx < 0 || gIdx < 0 {
+				r.Lost(rule, rel+".Write/parameters", "Write no longer takes a binary.ByteOrder and a geom.T")
+			} else {
+				type foreign struct{ _ int }
+				cases := []struct {
+					name string
+					v    eng.CVal
+					want int64
+				}{
+					{"BigEndian", eng.DynV(boType["BigEndian"]), 0},
+					{"LittleEndian", eng.DynV(boType["LittleEndian"]), 1},
+					{"other", eng.DynV(types.NewStruct([]*types.Var{types.NewField(0, nil, "x", types.Typ[types.Int], false)}, nil)), -1},
+				}
+				for _, cs := range cases {
+					ev := &eng.ConstEval{Inline: pureTableHelper, Override: common}
+					args := make([]eng.CVal, len(wfn.Params))
+					for i := range args {
+						args[i] = eng.Top
+					}
+					args[boIdx] = cs.v
+					args[gIdx] = eng.DynV(geomPtrType(p, "Point"))
+					top := ev.Run(wfn, args)
+					var bytesW []eng.CVal
+					words := 0
+					eng.WalkReached(top, func(act *eng.CEResult, in ssa.Instruction) {
+						c, ok := in.(*ssa.Call)
+						if !ok {
+							return
+						}
+						f := c.Call.StaticCallee()
+						if f == nil {
+							return
+						}
+						if f.Name() == "WriteByte" && core.FnPkgPath(f) == mod+"/encoding/wkbcommon" && len(c.Call.Args) == 2 {
+							bytesW = append(bytesW, act.Of(c.Call.Args[1]))
+						}
+						if f.Name() == "Write" && core.FnPkgPath(f) == "encoding/binary" && len(c.Call.Args) == 3 {
+							if mi, ok := c.Call.Args[2].(*ssa.MakeInterface); ok {
+								if b, ok := mi.X.Type().Underlying().(*types.Basic); ok && b.Kind() == types.Uint8 {
+									bytesW = append(bytesW, act.Of(mi.X))
+								}
+							}
+						}
+						if _, isW := isUint32Write(c); isW {
+							words++
+						}
+					})
+					key := fmt.Sprintf("%s.Write/%s", rel, cs.name)
+					switch {
+					case cs.want < 0:
+						r.Check(len(bytesW) == 0 && words == 0, rule, key, p.Pos(wfn.Pos()), true, "rejected before anything is written", fmt.Sprintf("a ByteOrder that is neither big nor little endian reaches %d byte write(s) and %d word write(s)", len(bytesW), words))
+					case len(bytesW) == 0:
+						r.Bad(rule, key, p.Pos(wfn.Pos()), "binary."+cs.name+" reaches no marker byte write")
+					default:
+						got, ok := bytesW[0].Int()
+						r.Check(ok && got == cs.want, rule, key, p.Pos(wfn.Pos()), true, fmt.Sprintf("%s <-> %d", cs.name, cs.want), fmt.Sprintf("binary.%s is written as marker %s; the spec says %d", cs.name, bytesW[0], cs.want))
+					}
+				}
+			}
+		}
+		// ---- reader
+		if rfn := mustFn(p, r, rule, rel, "Read"); rfn != nil {
+			first := eng.FirstCall(rfn, func(c *ssa.Call) bool {
+				f := c.Call.StaticCallee()
+				return f != nil && f.Name() == "ReadByte" && core.FnPkgPath(f) == mod+"/encoding/wkbcommon"
+			}, 0)
+			if first == nil {
+				r.Lost(rule, rel+".Read/marker", "Read no longer decodes the marker with wkbcommon.ReadByte")
+				continue
+			}
+			for _, cs := range []struct {
+				marker int64
+				want   string
+			}{{0, "BigEndian"}, {1, "LittleEndian"}, {2, ""}, {255, ""}} {
+				ev := &eng.ConstEval{Inline: pureTableHelper}
+				ev.Override = func(fn *ssa.Function, v ssa.Value, args []eng.CVal) (eng.CVal, bool) {
+					if v == ssa.Value(first) {
+						return eng.TupleV(eng.IntV(cs.marker), eng.NilV()), true
+					}
+					return common(fn, v, args)
+				}
+				top := ev.Run(rfn, nil)
+				var orders []eng.CVal
+				eng.WalkReached(top, func(act *eng.CEResult, in ssa.Instruction) {
+					c, ok := in.(*ssa.Call)
+					if !ok {
+						return
+					}
+					f := c.Call.StaticCallee()
+					if f == nil || core.FnPkgPath(f) != mod+"/encoding/wkbcommon" || !strings.HasPrefix(f.Name(), "Read") {
+						return
+					}
+					for i, a := range c.Call.Args {
+						if isByteOrder(f.Signature.Params().At(i).Type()) {
+							orders = append(orders, act.Of(a))
+						}
+					}
+				})
+				key := fmt.Sprintf("%s.Read/marker-%d", rel, cs.marker)
+				if cs.want == "" {
+					r.Check(len(orders) == 0, rule, key, p.Pos(rfn.Pos()), true, "rejected", fmt.Sprintf("the undefined byte-order marker %d reaches %d word read(s) instead of being rejected", cs.marker, len(orders)))
+					continue
+				}
+				bad := ""
+				if len(orders) == 0 {
+					bad = fmt.Sprintf("marker %d reaches no word read: valid input is rejected", cs.marker)
+				}
+				for _, o := range orders {
+					if nameOf(o) != cs.want {
+						bad = fmt.Sprintf("marker %d selects %s for a word read; the spec says binary.%s", cs.marker, nameOf(o), cs.want)
+					}
+				}
+				r.Check(bad == "", rule, key, p.Pos(rfn.Pos()), true, fmt.Sprintf("%d <-> %s (%d reads)", cs.marker, cs.want, len(orders)), bad)
+			}
 		}
 	}
 }
